@@ -244,6 +244,64 @@ func ruleTagInterval(c *Ctx, r *Report) {
 			okRec = false
 		}
 	}
+	if len(rec) == 0 {
+		// iterative form: the hashed string is a loop variable that starts as the input and is
+		// extended on every further round of a loop that encloses the hashing.
+		okRec = false
+		pm := c.parentMap(f.File)
+		for _, w := range CallsIn(info, f.Decl.Body, "hash.Hash32.Write", "hash.Hash.Write", "io.Writer.Write") {
+			if len(w.Args) != 1 {
+				continue
+			}
+			var hashed types.Object
+			ast.Inspect(w.Args[0], func(m ast.Node) bool {
+				if id, ok := m.(*ast.Ident); ok && hashed == nil {
+					if v, isVar := info.ObjectOf(id).(*types.Var); isVar && paramIndex(f, v) < 0 {
+						if b, isB := v.Type().Underlying().(*types.Basic); isB && b.Kind() == types.String {
+							hashed = v
+						}
+					}
+				}
+				return true
+			})
+			if hashed == nil {
+				continue
+			}
+			var loop *ast.ForStmt
+			for p := pm[w]; p != nil; p = pm[p] {
+				if fs, ok := p.(*ast.ForStmt); ok {
+					loop = fs
+					break
+				}
+			}
+			if loop == nil {
+				continue
+			}
+			fromInput, extended := false, false
+			ast.Inspect(loop, func(m ast.Node) bool {
+				as, ok := m.(*ast.AssignStmt)
+				if !ok || len(as.Lhs) != 1 || len(as.Rhs) != 1 || ObjOf(info, as.Lhs[0]) != hashed {
+					return true
+				}
+				switch {
+				case as.Tok == token.DEFINE || (as.Tok == token.ASSIGN && !mentionsObj(info, as.Rhs[0], hashed)):
+					if mentionsParam(f, as.Rhs[0], 0) {
+						fromInput = true
+					}
+				case as.Tok == token.ADD_ASSIGN:
+					if v, ok := ConstOf(info, as.Rhs[0]); ok && v != `""` {
+						extended = true
+					}
+				case as.Tok == token.ASSIGN && mentionsObj(info, as.Rhs[0], hashed):
+					extended = true
+				}
+				return true
+			})
+			if fromInput && extended {
+				okRec = true
+			}
+		}
+	}
 	r.Check(okRec, "protogen.fieldTag:rehash", c.Pos(f.Decl.Pos()), "re-hashes a string derived from (and different from) the input", "the re-hash branch of fieldTag does not derive a new string from its input")
 }
 
